@@ -21,7 +21,7 @@ NAME = "patchsim"
 SIM_UNIT = "line events executed inside wrapped regions"
 BUDGET = {"quick": {"runs": 2200, "wall": 75}, "thorough": {"runs": 6000, "wall": 2400}}
 SHRINK_LISTS = ("ops",)
-ISOLATE = True          # every run in a forked child: the subject is process-global state
+ISOLATE = "run"         # every run in a forked child: the subject is process-global state
 PROBES = {"C06": ["inject:pypose-frame", "inject:user-frame", "inject:torch-frame", "inject:other-frame", "user-raise",
                   "user-raise:BaseException", "nested>=2", "reused-wrapper", "reused-wrapper-inside-context", "op-raised", "op-completed-despite-fault",
                   "mode-B-fork", "enumerated-all-k", "monitor:api-call", "monitor:strided-args"]}
